@@ -1,7 +1,7 @@
 #!/bin/bash
 # runs every claimed property's thorough tier once (used with `vp run`)
 cd "$(dirname "$0")"
-for p in C05 C06 C07 C08 C09 C10 C11 C12 C13 C14 C15 C16 C19; do
+for p in ${PROPS:-C05 C06 C07 C08 C09 C10 C11 C12 C13 C14 C15 C16 C19}; do
   t0=$(date +%s); ./check $p thorough > thorough.$p.log 2>&1; rc=$?; t1=$(date +%s)
   echo "$p rc=$rc wall=$((t1-t0))s $(grep -c VIOLATION thorough.$p.log) violations; $(grep 'dsim: runs=' thorough.$p.log)"
 done
